@@ -315,4 +315,293 @@ Proof.
     apply trickle_sim; try done; lia.
 Qed.
 
+(** ** 5. the grandparent chain, bubble_up, up_heapify, heap_build *)
+
+Lemma bubble_chain_sim (mn : bool) (fuel : nat) : forall (s : store) pos idx e,
+  WF (fill s pos idx) -> fuse s = None -> pos < ssize s -> smap s !! idx = Some e ->
+  pos < fuel ->
+  exists s' pos' l' t,
+    achain pr ple mn fuel (eview (fill s pos idx)) pos = (l', pos', t) /\
+    bubble_chain ple mn fuel s pos e.2 = Ok (pos', s') /\
+    WF (fill s' pos' idx) /\ eview (fill s' pos' idx) = l' /\
+    smap s' = smap s /\ ssize s' = ssize s /\ ticks s' = ticks s + t /\
+    fuse s' = fuse s /\ cap s' = cap s /\ pos' <= pos.
+Proof.
+  induction fuel as [|fuel IH]; intros s pos idx e HWF Hf Hp He Hfuel; [lia|].
+  cbn [bubble_chain achain].
+  destruct pos as [|k].
+  { exists s, 0, (eview (fill s 0 idx)), 0. splits; try done; lia. }
+  cbn [parent mbind res_bind rbind]. rewrite par_S.
+  destruct (k / 2) as [|j] eqn:Hk2.
+  { exists s, (S k), (eview (fill s (S k) idx)), 0. splits; try done; lia. }
+  cbn [parent mbind res_bind rbind]. rewrite <- (par_S j).
+  set (gp := par (S j)). assert (Hgj : gp < S j) by apply par_lt.
+  assert (Hjk : S j <= k) by (rewrite <- Hk2; apply Nat.div_le_upper_bound; lia).
+  destruct (WF_fill_facts _ _ _ _ HWF) as (Lh & Lq & Lm).
+  assert (Hgps : gp < ssize s) by lia.
+  destruct (eview_some' _ gp HWF Hgps) as [xg Hxg].
+  rewrite Hxg. rewrite (eview_fill_pos' s (S k) idx HWF Hp), He.
+  rewrite <- (fill_prio_at s (S k) idx gp) by lia.
+  rewrite (prio_at_ok _ _ _ HWF Hxg). bind.
+  rewrite cmp_dir_nofuse by done. bind.
+  set (s1 := set_ticks s (S (ticks s))).
+  destruct (alt_dir ple mn e.2 xg.2) eqn:Hb.
+  - (* the grandparent moves down *)
+    pose proof Hxg as Hxg'. rewrite (eview_lookup _ _ HWF) in Hxg'.
+    destruct (heap (fill s (S k) idx) !! gp) as [gidx|] eqn:Hgidx; [|done].
+    destruct (fill_heap_lookup keq s (S k) idx gp gidx HWF ltac:(lia) Hgps Hgidx) as (Hh & Hgi & Hgne).
+    change (heap s1) with (heap s). change (qp s1) with (qp s).
+    unfold getu. rewrite Hh. bind.
+    unfold setu. rewrite decide_True by lia. bind.
+    rewrite decide_True by lia. bind.
+    change (set_qp (set_heap s1 (<[S k:=gidx]> (heap s))) (<[gidx:=S k]> (qp s)))
+      with (hole_move s1 (S k) gp gidx).
+    assert (HWF1 : WF (fill s1 (S k) idx)) by exact HWF.
+    destruct (hole_move_ok s1 (S k) gp idx gidx HWF1 Hp Hgps ltac:(lia) Hh) as (HWF2 & _ & Hev2).
+    set (s2 := hole_move s1 (S k) gp gidx) in *.
+    destruct (IH s2 gp idx e HWF2 Hf Hgps He ltac:(lia))
+      as (s' & pos' & l' & t & Hab & Hco & HWF' & Hev' & Hm' & Hsz' & Htk' & Hfu' & Hcp' & Hle).
+    change (eview (fill s1 (S k) idx)) with (eview (fill s (S k) idx)) in Hev2.
+    rewrite Hev2 in Hab. rewrite Hab.
+    exists s', pos', l', (S t). splits; try done; try lia.
+    rewrite Htk'. unfold s2, s1. cbn. lia.
+  - exists s1, (S k), (eview (fill s (S k) idx)), 1.
+    splits; try done; try lia. unfold s1; cbn; lia.
+Qed.
+
+Lemma dbubble_up_sim (s : store) pos idx :
+  WF (fill s pos idx) -> fuse s = None -> pos < ssize s -> idx < ssize s ->
+  exists s' pos' l' t,
+    adbubble_up pr ple (eview (fill s pos idx)) pos = (l', pos', t) /\
+    dbubble_up ple s pos idx = Ok (pos', s') /\
+    WF s' /\ eview s' = l' /\
+    smap s' = smap s /\ ssize s' = ssize s /\ ticks s' = ticks s + t /\
+    fuse s' = fuse s /\ cap s' = cap s /\ pos' <= pos.
+Proof.
+  intros HWF Hf Hp Hi.
+  destruct (WF_fill_facts _ _ _ _ HWF) as (Lh & Lq & Lm).
+  destruct (lookup_lt_is_Some_2 (smap s) idx ltac:(lia)) as [e He].
+  unfold dbubble_up, adbubble_up. rewrite He. cbn [unwrap mbind res_bind rbind].
+  destruct pos as [|k].
+  { bind. unfold setu. rewrite decide_True by lia. bind.
+    rewrite decide_True by lia. bind.
+    exists (fill s 0 idx), 0, (eview (fill s 0 idx)), 0. splits; try done; lia. }
+  cbn [parent mbind res_bind rbind]. rewrite <- (par_S k).
+  set (pa := par (S k)). assert (Hpa : pa < S k) by apply par_lt.
+  assert (Hpas : pa < ssize s) by lia.
+  destruct (eview_some' _ pa HWF Hpas) as [xp Hxp].
+  rewrite Hxp. rewrite (eview_fill_pos' s (S k) idx HWF Hp), He.
+  rewrite <- (fill_prio_at s (S k) idx pa) by lia.
+  rewrite (prio_at_ok _ _ _ HWF Hxp). bind.
+  pose proof Hxp as Hxp'. rewrite (eview_lookup _ _ HWF) in Hxp'.
+  destruct (heap (fill s (S k) idx) !! pa) as [pidx|] eqn:Hpidx; [|done].
+  destruct (fill_heap_lookup keq s (S k) idx pa pidx HWF ltac:(lia) Hpas Hpidx) as (Hh & Hpi & Hpne).
+  unfold getu at 1. rewrite Hh. bind.
+  rewrite cmp_lt_nofuse by done. bind.
+  change (plt ple xp.2 e.2) with (alt ple xp.2 e.2).
+  change (amin_level (S k)) with (on_min_level (S k)).
+  set (s1 := set_ticks s (S (ticks s))).
+  assert (HWF1 : WF (fill s1 (S k) idx)) by exact HWF.
+  assert (exists s' pos' l' t,
+    (let '(l', p', t) :=
+       match on_min_level (S k), alt ple xp.2 e.2 with
+       | true, true => achain pr ple false (S (S k)) (aswap (eview (fill s (S k) idx)) (S k) pa) pa
+       | true, false => achain pr ple true (S (S k)) (eview (fill s (S k) idx)) (S k)
+       | false, true => achain pr ple false (S (S k)) (eview (fill s (S k) idx)) (S k)
+       | false, false => achain pr ple true (S (S k)) (aswap (eview (fill s (S k) idx)) (S k) pa) pa
+       end in (l', p', S t)) = (l', pos', t) /\
+    (match on_min_level (S k), alt ple xp.2 e.2 with
+     | true, true =>
+         h ← setu (heap s1) (S k) pidx; q ← setu (qp s1) pidx (S k);
+         bubble_chain ple false (S (S k)) (set_qp (set_heap s1 h) q) pa e.2
+     | true, false => bubble_chain ple true (S (S k)) s1 (S k) e.2
+     | false, true => bubble_chain ple false (S (S k)) s1 (S k) e.2
+     | false, false =>
+         h ← setu (heap s1) (S k) pidx; q ← setu (qp s1) pidx (S k);
+         bubble_chain ple true (S (S k)) (set_qp (set_heap s1 h) q) pa e.2
+     end) = Ok (pos', s') /\
+    WF (fill s' pos' idx) /\ eview (fill s' pos' idx) = l' /\
+    smap s' = smap s /\ ssize s' = ssize s /\ ticks s' = ticks s + t /\
+    fuse s' = fuse s /\ cap s' = cap s /\ pos' <= S k)
+    as (s' & pos' & l' & t & Hab & Hco & HWF' & Hev' & Hm' & Hsz' & Htk' & Hfu' & Hcp' & Hle).
+  { destruct (on_min_level (S k)), (alt ple xp.2 e.2).
+    1,4: change (heap s1) with (heap s); change (qp s1) with (qp s);
+      unfold setu; rewrite decide_True by lia; bind;
+      rewrite decide_True by lia; bind;
+      change (set_qp (set_heap s1 (<[S k:=pidx]> (heap s))) (<[pidx:=S k]> (qp s)))
+        with (hole_move s1 (S k) pa pidx);
+      destruct (hole_move_ok s1 (S k) pa idx pidx HWF1 Hp Hpas ltac:(lia) Hh) as (HWF2 & _ & Hev2);
+      set (s2 := hole_move s1 (S k) pa pidx) in *;
+      change (eview (fill s1 (S k) idx)) with (eview (fill s (S k) idx)) in Hev2;
+      rewrite <- Hev2;
+      match goal with |- context [bubble_chain ple ?mn _ _ _ _] =>
+        destruct (bubble_chain_sim mn (S (S k)) s2 pa idx e HWF2 Hf Hpas He ltac:(lia))
+          as (s' & pos' & l' & t & Hab & Hco & HWF' & Hev' & Hm' & Hsz' & Htk' & Hfu' & Hcp' & Hle)
+      end;
+      rewrite Hab, Hco; exists s', pos', l', (S t); splits; try done; try lia;
+      rewrite Htk'; unfold s2, s1; cbn; lia.
+    all: match goal with |- context [bubble_chain ple ?mn _ _ _ _] =>
+        destruct (bubble_chain_sim mn (S (S k)) s1 (S k) idx e HWF1 Hf Hp He ltac:(lia))
+          as (s' & pos' & l' & t & Hab & Hco & HWF' & Hev' & Hm' & Hsz' & Htk' & Hfu' & Hcp' & Hle)
+      end;
+      change (eview (fill s1 (S k) idx)) with (eview (fill s (S k) idx)) in Hab;
+      rewrite Hab, Hco; exists s', pos', l', (S t); splits; try done; try lia;
+      rewrite Htk'; unfold s1; cbn; lia. }
+  rewrite Hab, Hco. bind.
+  destruct (WF_fill_facts _ _ _ _ HWF') as (Lh' & Lq' & Lm').
+  unfold setu. rewrite decide_True by lia. bind.
+  rewrite decide_True by lia. bind.
+  exists (fill s' pos' idx), pos', l', t. splits; done.
+Qed.
+
+Lemma dup_heapify_sim (s : store) i :
+  WF s -> fuse s = None ->
+  sim s (dup_heapify ple s i) (adup_heapify pr ple (eview s) i).1 (adup_heapify pr ple (eview s) i).2.
+Proof.
+  intros HWF Hf. unfold dup_heapify, adup_heapify.
+  destruct (decide (i < ssize s)) as [Hi|Hi].
+  2:{ assert (heap s !! i = None) as ->.
+      { apply eq_None_not_Some. rewrite heap_lookup_lt by done. done. }
+      assert (eview s !! i = None) as ->.
+      { apply lookup_ge_None. rewrite (eview_length s HWF). lia. }
+      cbn [fst snd]. apply (sim_intro' s s); try done; lia. }
+  destruct (WF_heap_lookup keq s i HWF Hi) as (tmp & Hh & Hq & Ht). rewrite Hh.
+  destruct (eview_some' s i HWF Hi) as [x Hx]. rewrite Hx.
+  pose proof (fill_id s i tmp Hh Hq) as Hfill.
+  assert (HWFf : WF (fill s i tmp)) by (rewrite Hfill; done).
+  destruct (dbubble_up_sim s i tmp HWFf Hf Hi Ht)
+    as (s1 & pos & l1 & t1 & Hab & Hco & HWF1 & Hev1 & Hm1 & Hsz1 & Htk1 & Hfu1 & Hcp1 & Hle).
+  rewrite Hfill in Hab. rewrite Hab, Hco. bind.
+  assert (Hs2 : sim s1 (if decide (i = pos) then Ok s1 else dheapify ple s1 i)
+                  (if decide (i = pos) then (l1, 0) else adheapify pr ple l1 i).1
+                  (if decide (i = pos) then (l1, 0) else adheapify pr ple l1 i).2).
+  { destruct (decide (i = pos)).
+    - cbn [fst snd]. apply (sim_intro' s1 s1); try done; lia.
+    - rewrite <- Hev1. apply dheapify_sim; congruence. }
+  destruct Hs2 as (s2 & Hr2 & HWF2 & Hev2 & Hm2 & Hsz2 & Htk2 & Hfu2 & Hcp2).
+  rewrite Hr2. bind.
+  destruct (if decide (i = pos) then (l1, 0) else adheapify pr ple l1 i) as [l2 t2].
+  cbn [fst snd] in *.
+  destruct (dheapify_sim s2 pos HWF2 ltac:(congruence))
+    as (s3 & Hr3 & HWF3 & Hev3 & Hm3 & Hsz3 & Htk3 & Hfu3 & Hcp3).
+  rewrite Hev2 in Hev3, Htk3.
+  destruct (adheapify pr ple l2 pos) as [l3 t3]. cbn [fst snd] in *.
+  apply (sim_intro' s s3); try congruence. lia.
+Qed.
+
+Lemma dheap_build_loop_sim (n : nat) : forall (s : store),
+  WF s -> fuse s = None ->
+  sim s (dheap_build_loop ple s n)
+      (adbuild_loop pr ple (eview s) n).1 (adbuild_loop pr ple (eview s) n).2.
+Proof.
+  induction n as [|k IH]; intros s HWF Hf; cbn [dheap_build_loop adbuild_loop].
+  - cbn [fst snd]. apply (sim_intro' s s); try done; lia.
+  - destruct (dheapify_sim s k HWF Hf)
+      as (s1 & Hr1 & HWF1 & Hev1 & Hm1 & Hsz1 & Htk1 & Hfu1 & Hcp1).
+    rewrite Hr1. bind.
+    destruct (adheapify pr ple (eview s) k) as [l1 t1] eqn:Hah. cbn [fst snd] in *.
+    destruct (IH s1 HWF1 ltac:(congruence))
+      as (s2 & Hr2 & HWF2 & Hev2 & Hm2 & Hsz2 & Htk2 & Hfu2 & Hcp2).
+    rewrite Hev1 in Hev2, Htk2.
+    destruct (adbuild_loop pr ple l1 k) as [l2 t2] eqn:Hbl. cbn [fst snd] in *.
+    apply (sim_intro' s s2); try congruence. lia.
+Qed.
+
+Lemma dheap_build_sim (s : store) :
+  WF s -> fuse s = None ->
+  sim s (dheap_build ple s) (adbuild pr ple (eview s)).1 (adbuild pr ple (eview s)).2.
+Proof.
+  intros HWF Hf. unfold dheap_build, adbuild. rewrite (eview_length s HWF).
+  destruct (decide (ssize s = 0)).
+  - cbn [fst snd]. apply (sim_intro' s s); try done; lia.
+  - destruct (ssize s) as [|k] eqn:Hsz; [done|].
+    cbn [parent mbind res_bind rbind]. rewrite par_S.
+    by apply dheap_build_loop_sim.
+Qed.
+
+(** ** 6. find_min / find_max / peeks *)
+
+Lemma find_min_sim (s : store) :
+  WF s -> find_min s = afind_min (eview s).
+Proof. intros HWF. unfold find_min, afind_min. by rewrite (eview_length s HWF). Qed.
+
+Lemma afind_max_lt (l : list (I * P)) p :
+  (afind_max pr ple l).1 = Some p -> p < length l.
+Proof.
+  unfold afind_max. destruct l as [|x0 [|x1 [|x2 l]]]; cbn [length fst]; try (intros [= <-]; lia).
+  cbn [lookup list_lookup fst]. destruct (alt ple x2.2 x1.2); intros [= <-]; lia.
+Qed.
+
+Lemma find_max_sim (s : store) :
+  WF s -> fuse s = None ->
+  find_max ple s = Ok ((afind_max pr ple (eview s)).1,
+                       set_ticks s (ticks s + (afind_max pr ple (eview s)).2)).
+Proof.
+  intros HWF Hf. unfold find_max, afind_max. rewrite (eview_length s HWF).
+  destruct (ssize s) as [|[|[|n]]] eqn:Hsz; cbn [fst snd]; try (by rewrite set_ticks_0).
+  destruct (eview_some' s 1 HWF ltac:(lia)) as [x1 Hx1].
+  destruct (eview_some' s 2 HWF ltac:(lia)) as [x2 Hx2].
+  rewrite Hx1, Hx2.
+  rewrite (prio_at_ok s 1 x1 HWF Hx1). bind.
+  rewrite (prio_at_ok s 2 x2 HWF Hx2). bind.
+  rewrite cmp_lt_nofuse by done. bind.
+  change (plt ple x2.2 x1.2) with (alt ple x2.2 x1.2). cbn [fst snd].
+  do 2 f_equal. destruct s; unfold set_ticks; cbn; f_equal; lia.
+Qed.
+
+Lemma slot_entry_sim (s : store) pos :
+  WF s -> pos < ssize s -> slot_entry s pos = Ok (eview s !! pos).
+Proof.
+  intros HWF Hp. unfold slot_entry, getu.
+  destruct (WF_heap_lookup keq s pos HWF Hp) as (i & Hh & _ & _).
+  rewrite (eview_lookup s pos HWF), Hh. reflexivity.
+Qed.
+
+Lemma peek_min_sim (s : store) :
+  WF s -> peek_min s = Ok (eview s !! 0).
+Proof.
+  intros HWF. unfold peek_min, find_min.
+  destruct (ssize s) as [|n] eqn:Hsz.
+  - assert (eview s !! 0 = None) as ->; [|done].
+    apply lookup_ge_None. rewrite (eview_length s HWF). lia.
+  - apply slot_entry_sim; [done|lia].
+Qed.
+
+Lemma peek_max_sim (s : store) :
+  WF s -> fuse s = None ->
+  peek_max ple s = Ok ((afind_max pr ple (eview s)).1 ≫= (fun pos => eview s !! pos),
+                       set_ticks s (ticks s + (afind_max pr ple (eview s)).2)).
+Proof.
+  intros HWF Hf. unfold peek_max. rewrite find_max_sim by done. bind.
+  pose proof (afind_max_lt (eview s)) as Hlt. rewrite (eview_length s HWF) in Hlt.
+  destruct (afind_max pr ple (eview s)) as [[pos|] t]; cbn [fst snd] in *; [|done].
+  rewrite (slot_entry_sim (set_ticks s (ticks s + t)) pos HWF (Hlt pos eq_refl)). reflexivity.
+Qed.
+
+(** ** 7. pop_min / pop_max *)
+
+Lemma pop_at_sim (s : store) pos :
+  WF s -> fuse s = None -> pos < ssize s ->
+  exists e i s' t,
+    pop_at ple s pos = Ok (Some e, s') /\
+    a_pop_at pr ple (eview s) pos = (Some e, eview s', t) /\
+    WF s' /\ eview s !! pos = Some e /\
+    heap s !! pos = Some i /\ smap s !! i = Some e /\
+    map_swap_remove_index (smap s) i = Some (e, smap s') /\
+    ssize s' = ssize s - 1 /\ ticks s' = ticks s + t /\
+    fuse s' = fuse s /\ cap s' = cap s.
+Proof.
+  intros HWF Hf Hp.
+  destruct (swap_remove_ok s pos HWF Hp)
+    as (e & i & s1 & Hsr & HWF1 & Hh & He & Hev1 & Hmr & Hsz1 & Htk1 & Hfu1 & Hcp1).
+  destruct (dheapify_sim s1 pos HWF1 ltac:(congruence))
+    as (s2 & Hr2 & HWF2 & Hev2 & Hm2 & Hsz2 & Htk2 & Hfu2 & Hcp2).
+  assert (Hx : eview s !! pos = Some e).
+  { rewrite (eview_lookup s pos HWF), Hh. exact He. }
+  unfold pop_at, a_pop_at. rewrite Hsr. bind. rewrite Hr2. bind.
+  rewrite Hev1 in Hev2, Htk2.
+  destruct (adheapify pr ple (aswap_remove (eview s) pos) pos) as [l' t]. cbn [fst snd] in *.
+  exists e, i, s2, t. rewrite Hx, Hev2, Hm2. splits; try done; congruence.
+Qed.
+
 End SimDPQ.
